@@ -138,7 +138,7 @@ def site_problems(files, options):
         f.update(PAGES)
     if "assets/logo-16.png" in f:
         options = options + "favicon: ./assets/logo-16.png\n"
-    meta = ("src_dir: ./src\noutput_dir: ./doc\nextra_filetypes: c //!\nsummary: A summary that links to [[m]] and [[main]] and [home](|url|/index.html) and <a href=\"|url|/index.html\" class=\"x\">in raw HTML</a>\n"
+    meta = ("src_dir: ./src\noutput_dir: ./doc\nextra_filetypes: c //!\nsummary: A summary that links to [[m]] and [[main]] and [home](|url|/index.html) and <a href=\"|url|/index.html\" class=\"x\">in raw HTML</a> and <a href='|url|/index.html' class='y'>with single quotes</a>\n"
             "author: Somebody\nauthor_description: Wrote [[m]], see [the lists](|url|/index.html)\n")
     with site.site(f, meta + options) as (pd, status):
         if not status.startswith("ok"):
